@@ -1,17 +1,23 @@
 import Umya.Driver.C17
+import Umya.Driver.C10
 
-def dispatch (line : String) : String :=
+structure DState where
+  c10 : Umya.Driver.C10.St := {}
+
+def dispatch (st : DState) (line : String) : DState × String :=
   match line.trimAscii.toString.splitOn " " with
-  | "c17" :: args => Umya.Driver.C17.handle args
-  | _ => "bad-op"
+  | "c17" :: args => (st, Umya.Driver.C17.handle args)
+  | "c10" :: args => let (s, r) := Umya.Driver.C10.handle st.c10 args; ({ st with c10 := s }, r)
+  | _ => (st, "bad-op")
 
-partial def loop (hin : IO.FS.Stream) (hout : IO.FS.Stream) : IO Unit := do
+partial def loop (hin : IO.FS.Stream) (hout : IO.FS.Stream) (st : DState) : IO Unit := do
   let line ← hin.getLine
   if line.isEmpty then return ()
-  hout.putStrLn (dispatch line)
-  loop hin hout
+  let (st', out) := dispatch st line
+  hout.putStrLn out
+  loop hin hout st'
 
 def main : IO Unit := do
   let hin ← IO.getStdin
   let hout ← IO.getStdout
-  loop hin hout
+  loop hin hout {}
